@@ -4,8 +4,12 @@ package c18
 
 import (
 	"bytes"
+	"crypto/rand"
 	"crypto/sha256"
+	"encoding/asn1"
 	"fmt"
+
+	math "github.com/IBM/mathlib"
 
 	"github.com/IBM/TSS/mpc/bls"
 	"verif/cryptolib"
@@ -94,4 +98,54 @@ func verifySubsetBLS(k cfg, shares map[uint16][]byte, c *harness.C, seed int64) 
 		}
 	}
 	return "", nil
+}
+
+func blsDeal(n, t int) ([]*math.Zr, []*math.Zr) {
+	s := &bls.SSS{Threshold: t}
+	p, sh := s.Gen(n, rand.Reader)
+	return []*math.Zr(p), []*math.Zr(sh)
+}
+
+// blsAggregateAtScale: the library's own Lagrange aggregation (Verifier.AggregateSignatures) on
+// "signatures" P*share_i of the dealt shares must give P*secret, for the first, last and strided
+// t-subsets, in ascending and in descending order.
+func blsAggregateAtScale(c *harness.C, n, t int, coeffs, shares []*math.Zr) error {
+	var pp bls.PublicParams
+	for i := 1; i <= n; i++ {
+		pp.Parties = append(pp.Parties, i)
+	}
+	pp.ThresholdPK = cv.GenG2.Mul(coeffs[0]).Bytes()
+	raw, err := asn1.Marshal(pp)
+	if err != nil {
+		return err
+	}
+	var v bls.Verifier
+	if err := v.Init(raw); err != nil {
+		return err
+	}
+	P := cv.HashToG1([]byte("c18-scale"))
+	want := P.Mul(coeffs[0]).Bytes()
+	for _, sub := range dealSubsets(n, t) {
+		for _, rev := range []bool{false, true} {
+			var sigs [][]byte
+			var who []uint16
+			for k := range sub {
+				i := sub[k]
+				if rev {
+					i = sub[len(sub)-1-k]
+				}
+				sigs = append(sigs, P.Mul(shares[i-1]).Bytes())
+				who = append(who, uint16(i))
+			}
+			got, err := v.AggregateSignatures(sigs, who)
+			c.Add("evaluations", 1)
+			if err != nil {
+				return err
+			}
+			if !bytes.Equal(got, want) {
+				return fmt.Errorf("aggregation over points %v (reversed=%v) does not give the signature of the dealt secret", sub, rev)
+			}
+		}
+	}
+	return nil
 }
